@@ -312,6 +312,48 @@ def check(tier, seed):
                               "{ %s { %s } } over %r: resolvers saw %r, each type's own declared defaults give %r (errors %r)"
                               % (field, sel, order, got, want, [str(e) for e in (res.errors or [])][:1]),
                               {"query": "{ %s { %s } }" % (field, sel), "runtime_types": list(order), "seen": repr(got), "expected": repr(want)}, True)
+    # (5) arguments of a custom directive, as handed to a resolver by ResolveInfo.get_directive_arguments: same coercion, same defaults, same python names;
+    #     None when the directive is not used on the field
+    from py_gql.schema import Directive
+    dcalls = []
+
+    def resolve_d(root, ctx, info, **kw):
+        dcalls.append(info.get_directive_arguments("opts"))
+        return "ok"
+    ddef = Directive("opts", ["FIELD"], args=[Argument("n", NonNullType(Int), default_value=3), Argument("inner", bases["Inner"]), Argument("tags", ListType(NonNullType(String))),
+                                              Argument("c", bases["Color"], default_value=1), Argument("py_arg", Int, python_name="pyArg")])
+    dschema = Schema(ObjectType("Query", [Field("d", String, resolver=resolve_d)]), directives=[ddef])
+    for q, variables in [("{ d }", {}), ("{ d @opts }", {}), ('{ d @opts(n: 5, tags: "x", c: GREEN, py_arg: 2) }', {}), ('{ d @opts(inner: {req: "r"}) }', {}),
+                         ('{ d @opts(tags: ["a", "b"], inner: {req: "r", again: {req: "q", snake_name: 4}}) }', {}),
+                         ("query ($n: Int!, $t: [String!], $c: Color) { d @opts(n: $n, tags: $t, c: $c) }", {"n": 7, "t": ["x"], "c": "BLUE"}),
+                         ("query ($n: Int = 4, $t: [String!]) { d @opts(n: $n, tags: $t) }", {}), ("query ($i: Inner) { d @opts(inner: $i) }", {"i": {"req": "v"}}),
+                         ("query ($i: Inner) { d @opts(inner: $i) }", {}), ("query ($i: Inner) { d @opts(inner: $i) }", {"i": None}),
+                         ("query ($p: Int) { d @opts(py_arg: $p) }", {"p": 9}), ("{ d @opts(c: null, tags: null) }", {})]:
+        n += 1
+        nontrivial += 1
+        del dcalls[:]
+        res = graphql_blocking(dschema, q, variables=variables)
+        w = {"query": q, "variables": variables, "directive": "@opts"}
+        doc_vars = _coerced_variables(dschema, q, variables)
+        if doc_vars is None:
+            continue
+        node = _field_node(q)
+        used = [d_ for d_ in node.directives if d_.name.value == "opts"]
+        try:
+            want = ("ok", R.coerce_arguments(ddef, used[0], doc_vars)) if used else ("ok", None)
+        except R.Reject as e:
+            want = ("reject", str(e))
+        if want[0] == "reject":
+            if dcalls and dcalls[0] is not None:
+                run.violation("resolver:rejected-before-any-resolver-runs", "%s with %r: the specification rejects the directive arguments (%s) but the resolver was handed %r"
+                              % (q, variables, want[1], dcalls[0]), w, True)
+            continue
+        if len(dcalls) != 1:
+            run.violation("resolver:receives-conforming-arguments", "%s with %r: accepted by the specification but the resolver ran %d times (%s)"
+                          % (q, variables, len(dcalls), [str(e) for e in (res.errors or [])][:1]), dict(w, why="resolver-not-called"), True)
+        elif (dcalls[0] is None) != (want[1] is None) or (want[1] is not None and not _same(dcalls[0], want[1])):
+            run.violation("resolver:receives-conforming-arguments", "%s with %r: get_directive_arguments gave %r, the specification's coercion gives %r"
+                          % (q, variables, dcalls[0], want[1]), dict(w, seen=repr(dcalls[0]), expected=repr(want[1])), True)
     if nontrivial == 0:
         raise MachineryDefect("no accepted case")
     run.cov["evaluations"] += n
